@@ -6,19 +6,32 @@ CHECK = {
     "id": "C12",
     "level": "exploration",
     "engine": "E3",
-    "technique": "exhaustive enumeration of the run-mode x optional-component x thread-count lattice; every "
-                 "configuration is a complete run of the real executable under AddressSanitizer and under valgrind "
-                 "memcheck",
-    "level_text": "The property quantifies over run configurations, a finite lattice: 5 run modes x every subset of "
-                  "the optional components the mode reads, with parameter-value variants (live output ranges tight "
-                  "around the gas, zero-luminosity continuous source, two mask types) x 1-2 threads x 2 grid layouts "
-                  "(1 008 configurations). Each one "
-                  "is executed to its normal end twice (ASan build, omp build under memcheck); exit status, expected "
-                  "output files and the tools' reports are the oracle. Nothing is searched or interleaved, so this is "
-                  "exploration, exhaustive over the lattice in the thorough tier and pairwise-covering in the quick "
-                  "tier.",
-    "level_note": "One default thread schedule per configuration; grids 4^3 cells in 2x2x1 and 8^3 cells in 4x4x4 subgrids, "
-                  "4 hydro steps, 2 photoionization iterations. Leak checking off. Assumption: the task-based RHD "
+    "technique": "bounded-exhaustive enumeration of the run-mode x optional-component (with value variants) x "
+                 "thread-count x grid-layout lattice by covering arrays (deterministic greedy; strength 2 in the "
+                 "quick tier, strength 3 plus every on/off subset of the components in the thorough tier); every "
+                 "chosen configuration is a complete run of the real executable under AddressSanitizer and under "
+                 "valgrind memcheck",
+    "level_text": "The property quantifies over run configurations, a finite lattice of 11 568 configurations: "
+                  "5 run modes x optional components with parameter-value variants (7 live output variants: off, "
+                  "default outputs, all four outputs with ranges tight around the gas, each non-default output "
+                  "alone or paired, enabled with no output, 1-bin PDFs, one output time; 3 mask settings; turbulence; "
+                  "diffuse field; continuous source off / on / with zero luminosity; 6 tracker populations with "
+                  "0, 1, 2, 3 and 4 trackers per cell, a tracker file with 0 trackers and a Multi-type tracker that "
+                  "shares its cell; text and HDF5 tracker output with 1-4 HDF5 groups of 1-4 members; source copy "
+                  "levels 0, 1, 2; thread count of the restarted leg) x 1-2 threads x 6 grid layouts (cubic ones and "
+                  "layouts whose cell counts per subgrid and subgrid counts per axis are all different, descending and "
+                  "ascending in x, y, z). A chosen configuration is executed to its normal end under the ASan build and "
+                  "under the omp build in memcheck; exit status, expected output files and the tools' reports are "
+                  "the oracle. Thorough tier: per mode a covering array of strength 3 (every triple of factor values) "
+                  "that also contains every on/off subset of the components with every mode and thread count and with "
+                  "every mode and grid layout, both tools (970 configurations). Quick tier: both tools on a strength-2 array of the four RHD modes with the mode as a "
+                  "factor (plus every pair of first-version values with every mode) and on a strength-2 array of "
+                  "the photoionization mode, layouts 0-3 (88 configurations); ASan alone on a strength-2 array per mode "
+                  "over all six layouts (131 more). Nothing is searched or interleaved, so this is exploration.",
+    "level_note": "One default thread schedule per configuration; grids of 64 to 576 cells in 4 to 64 subgrids, "
+                  "4 hydro steps, 2 photoionization iterations. Interactions of four or more specific factor values "
+                  "are covered only as far as the covering arrays happen to contain them (the complete product is "
+                  "not run any more). Leak checking off. Assumption: the task-based RHD "
                   "modes require a discrete source distribution (do_simulation dereferences it unconditionally), so "
                   "'PhotonSourceDistribution: type: None' is outside the property's precondition; three such probes are "
                   "run and recorded in extra.probes_not_judged without being judged.",
